@@ -69,11 +69,11 @@ SPECS = {
                + [{"entry": "vh_c18_reject", "label": "vh_c18_reject.b%d.p%d" % (bs, pw), "fix": {"base": bs, "power": pw}, "tiers": (["quick", "thorough"] if pw == (bs % 3) else ["thorough"])} for bs in range(31) for pw in range(5)]
                + [{"entry": "vh_c18_transparent", "label": "vh_c18_transparent.x%d.m%d.p%d" % (x, m, p), "fix": {"extent": x, "match": m, "p0": p}} for x in range(2) for m in range(2) for p in range(7)]}]},
  "C16": {
-  "explanation": "The engine checks every load, store, free, float->integer conversion, division and allocation on every explored path of EVERY harness (all properties); this check adds the out-of-contract programs: on the fully linked world file one of 44 misuse calls is made - every index getter with an arbitrary 64-bit index, data I/O with arbitrary offsets / wrong ranks / empty requests, NDSize misuse, uninitialised handles, handles to entities deleted meanwhile (array, positions, property, array under a DataView), data-frame access by arbitrary row/column/offset, retrieval with arbitrary reference / feature / position indices, more slice entries than dimensions - and the real index kernels are driven with positions of any magnitude incl. NaN and infinities. Oracle: the call returns or throws a C++ exception, no engine check fires, the file stays usable.",
-  "bounds": {"misuse_menu": 44, "file": "harness/world.hpp", "indices/offsets": "any 64-bit value", "positions": "any double"},
+  "explanation": "The engine checks every load, store, free, float->integer conversion, division and allocation on every explored path of EVERY harness (all properties); this check adds the out-of-contract programs: on the fully linked world file one of 48 calls is made (44 out-of-contract ones, 4 in-contract reads into exactly sized buffers with and without calibration) - every index getter with an arbitrary 64-bit index, data I/O with arbitrary offsets / wrong ranks / empty requests, NDSize misuse, uninitialised handles, handles to entities deleted meanwhile (array, positions, property, array under a DataView), data-frame access by arbitrary row/column/offset, retrieval with arbitrary reference / feature / position indices, more slice entries than dimensions - and the real index kernels are driven with positions of any magnitude incl. NaN and infinities. Oracle: the call returns or throws a C++ exception, no engine check fires, the file stays usable.",
+  "bounds": {"misuse_menu": 48, "file": "harness/world.hpp", "indices/offsets": "any 64-bit value", "positions": "any double"},
   "outside": ["'all finite programs': only the bounded programs of the harnesses; functions no harness reaches are not covered (functions_encoded lists what was)", "libhdf5 internals (modelled)", "allocation failure", "threads"],
   "assumptions": ["libhdf5 replaced by h5model", "operator new never fails"],
-  "harnesses": [{"file": "C16_misuse.cpp", "entries": [{"entry": "vh_c16_misuse", "label": "vh_c16_misuse.op%d" % o, "fix": {"op": o}} for o in range(44)]
+  "harnesses": [{"file": "C16_misuse.cpp", "entries": [{"entry": "vh_c16_misuse", "label": "vh_c16_misuse.op%d" % o, "fix": {"op": o}} for o in range(48)]
        + [{"entry": "vh_c16_positions", "label": "vh_c16_positions.d%d" % d, "fix": {"dim": d}} for d in range(4)]}]},
  "C01": {
   "explanation": "Full stack on the HDF5 model for 10 numeric element types plus Bool and String: bounded histories of hyperslab writes (offset/count inside, touching and crossing the edge), appends along each axis, extent changes (grow/shrink) and sub-region reads with symbolic element values, compared with a dense reference array after every step and after reopen; reads as other numeric types; calibration polynomial/origin in the exact regime (integer-valued doubles) with raw reads unaffected; kernel checks of applyPolynomial (arbitrary doubles, order-independent facts) and guessChunking.",
